@@ -1,0 +1,26 @@
+//go:build verif
+
+package kgo
+
+import "sync/atomic"
+
+// VerifEventSink, when set (verif builds only), receives internal events
+// that an external verification harness uses to observe decisions that are
+// not visible through the public hooks. Each call site is inside the
+// critical section guarding the state it reports.
+var verifEventSink atomic.Pointer[func(kind string, r *Record, a, b int64)]
+
+// VerifSetEventSink installs (or, with nil, removes) the event sink.
+func VerifSetEventSink(fn func(kind string, r *Record, a, b int64)) {
+	if fn == nil {
+		verifEventSink.Store(nil)
+		return
+	}
+	verifEventSink.Store(&fn)
+}
+
+func verifEvent(kind string, r *Record, a, b int64) {
+	if fn := verifEventSink.Load(); fn != nil {
+		(*fn)(kind, r, a, b)
+	}
+}
